@@ -15,6 +15,14 @@ must not be used before its sort call (mapranges.go; reviewed sites pinned by lo
 `Gen/ResolverImports.lean` = the alias argument of (*File).Imports. Proved (Props/C18Regen.lean): modelgen's pointer
 pass runs on sorted input (and needs to); re-generation returns the import aliases of the previous output. Ties:
 pointer/value type of every struct field of models_gen.go vs `driver_c18 cyc`; `driver_c18 regen` on a grid.
+
+Round 3: project dimensions federation (versions x explicit_requires / computed_requires / multi, many entities) and autobind
+(the model package holds hand-written code and is autobound, models in / out of the exec package); a generation that fails
+after an earlier run of the same inputs succeeded is a violation. Regenerated: `Gen/SortComparators.lean` (every comparator
+literal; mapranges.go refuses a sort whose comparator does not compare element i with element j), `Gen/GenerateSteps.lean`
+(order of api.Generate's statements). Proved (Props/C18Run.lean): a proper comparator is the sort of the order model, a
+comparator over one index sorts nothing; with the regenerated step order a run does not depend on the previous exec / models
+output (Model/Regenerate.lean). Tie: types declared by the real models file after each run vs `driver_c18 gen2`.
 """
 import difflib
 import os
@@ -124,8 +132,8 @@ def run(ctx):
         "cycle-pass model (Model/CyclePass.lean): struct names are compared as Go names; templates.ToGo is the identity on the names the relations projects use",
         "import-table model (Model/Imports.lean): the imports internal/rewrite reads back from an existing resolver file are a subset of the first rendering's table with the alias Import.String printed; tied to the real generator only by the bound-package projects (imports dimension)",
     ]
-    ok_extract = ctx.extract("Keywords", "MapRanges", "ResolverImports")
-    proved = ok_extract and ctx.prove(props=["GqlgenVerif.Props.C18", "GqlgenVerif.Props.C18Regen"])
+    ok_extract = ctx.extract("Keywords", "MapRanges", "ResolverImports", "SortComparators", "GenerateSteps")
+    proved = ok_extract and ctx.prove(props=["GqlgenVerif.Props.C18", "GqlgenVerif.Props.C18Regen", "GqlgenVerif.Props.C18Run"])
     gen_file = os.path.join(vf.LEAN, "GqlgenVerif", "Gen", "MapRanges.lean")
     sites = []
     if os.path.exists(gen_file):
@@ -193,11 +201,18 @@ def run(ctx):
         c18proj.write(root, name, proj, pkg_prefix)
         meta[name] = proj["meta"]
         projects.append(name)
+    fed_opts = ["explicit_requires", "computed_requires", "", None]     # the first projects cover every option, then random
     for dim, gen, n in (("rel", c18proj.relations, 3 if quick else 12), ("imp", c18proj.imports, 4 if quick else 14),
-                        ("lit", c18proj.literals, 1 if quick else 4)):
+                        ("lit", c18proj.literals, 1 if quick else 4), ("fed", c18proj.federation, 4 if quick else 12),
+                        ("ab", c18proj.autobind, 4 if quick else 12)):
         for i in range(n):
             name = "c18%s%d" % (dim, i)
-            proj = gen(prng, name) if dim != "rel" else gen(prng, name, always_false=i % 3 != 2)
+            if dim == "rel":
+                proj = gen(prng, name, always_false=i % 3 != 2)
+            elif dim == "fed":
+                proj = gen(prng, name, option=fed_opts[min(i, 3)], version=1 if i == 2 else None, min_requires=9 if i < 2 else 3)
+            else:
+                proj = gen(prng, name)
             c18proj.write(root, name, proj, pkg_prefix)
             meta[name] = proj["meta"]
             projects.append(name)
@@ -206,7 +221,7 @@ def run(ctx):
     plan = [(1, "", True), (4, "res", False), (16, "sub/deep", True), (2, "sub", False)]
     if not quick:
         plan += [(8, "sub", True), (1, "sub/deep", False), (3, "", True), (16, "", False)]
-    if sensitive and quick:
+    if (sensitive or (ok_extract and not proved)) and quick:
         plan += [(8, "", True), (1, "", True), (3, "", True), (16, "", True)]
 
     def one(p):
@@ -222,7 +237,14 @@ def run(ctx):
             env.update({"GOMAXPROCS": str(procs), "GOMEMLIMIT": "3GiB"})
             rc, so, se = vf.sh([hbin, "-mode", "gen", "-dir", d, "-start", start], cwd=vf.GO, env=env, timeout=600)
             if rc != 0:
-                return p, None, [l for l in se.split("\n") if l.strip() and not l.startswith("/verif")][:3]
+                err = [l for l in se.split("\n") if l.strip() and not l.startswith("/verif")]
+                err = ([l for l in err if re.match(r"(GENERATE-ERROR|CONFIG-ERROR|PANIC)", l)] + err)[:3]
+                if not runs:
+                    return p, None, err         # the project can not be generated at all: C17's business
+                # an earlier generation of the SAME inputs succeeded: this one must too (and must leave the same tree)
+                files = {k: v for k, v in listing(hbin, d, env).items() if not k.endswith(INPUT_SUFFIXES) and not k.endswith("keep")}
+                runs.append({"GOMAXPROCS": procs, "start": start or ".", "clean_tree": wipe, "files": files, "failed": err, "_text": {}})
+                return p, runs, None
             files = {k: v for k, v in listing(hbin, d, env).items() if not k.endswith(INPUT_SUFFIXES) and not k.endswith("keep")}
             run = {"GOMAXPROCS": procs, "start": start or ".", "clean_tree": wipe, "files": files}
             same_group = [r for r in runs if r["clean_tree"] == wipe]
@@ -290,6 +312,25 @@ def run(ctx):
                                "clean tree" if base["clean_tree"] else "on previous output")})
 
         firsts = {}
+        if runs[-1].get("failed"):
+            # the same inputs generated fine in an earlier run of this project
+            r = runs[-1]
+            base = next(x for x in runs if x["clean_tree"]) if not r["clean_tree"] else runs[0]
+            prev = runs[-2]
+            kind = "determinism" if r["clean_tree"] else "idempotence"
+            removed = sorted(k for k in prev["files"] if k not in r["files"]) if not r["clean_tree"] else []
+            mismatches += 1
+            ctx.violation({"kind": "generation-failed-after-success", "project": p, "error": r["failed"], "files_removed_by_the_failing_run": removed[:10],
+                           "run_a": {k: v for k, v in base.items() if k in ("GOMAXPROCS", "start", "clean_tree")},
+                           "run_b": {k: v for k, v in r.items() if k in ("GOMAXPROCS", "start", "clean_tree")},
+                           "input": inputs, "dimension": meta.get(p, {}), "order_sensitive_sites": sensitive[:6],
+                           "shape": {"kind": kind, "generation_failed": True,
+                                     "on_previous_output": not r["clean_tree"]},
+                           "replay": "project %s (files in `input`, directory /verif/go/genout/c18/%s): run %d, `.cache/h_c18 -mode gen -dir <dir> -start %s` with GOMAXPROCS=%d %s, FAILED (%s)%s although run %d of the same inputs (GOMAXPROCS=%d, start %s, %s) succeeded" % (
+                               p, p, len(runs), r["start"], r["GOMAXPROCS"], "on a clean tree" if r["clean_tree"] else "on the un-edited tree left by the previous run",
+                               " / ".join(r["failed"])[:300], (" and removed " + ", ".join(removed[:4])) if removed else "",
+                               runs.index(base) + 1, base["GOMAXPROCS"], base["start"], "clean tree" if base["clean_tree"] else "on previous output")})
+            runs = runs[:-1]
         for r in runs:
             branch["run:GOMAXPROCS=%d,start=%s,%s" % (r["GOMAXPROCS"], r["start"], "clean" if r["clean_tree"] else "on-previous-output")] += 1
             g = r["clean_tree"]
@@ -312,7 +353,12 @@ def run(ctx):
     have_model = getattr(ctx, "driver_ok", False)
     rng = vf.Rng(ctx.seed + 1818)
     for p in projects:
-        if results[p][0] is None or not have_model or p == "c18fed":   # (the federation schema only loads with the plugin's sources)
+        if results[p][0] is None or not have_model:
+            continue
+        yml_text = open(os.path.join(root, p, "gqlgen.yml")).read()
+        if re.search(r"^(federation|autobind):", yml_text, re.M):
+            # the schema summary of `h_c17 -mode decls` is taken from the sources and the `models:` section alone: a federation
+            # schema only loads with the plugin's sources, and which types autobind binds is decided inside cfg.Init()
             continue
         rc, so, se = vf.sh([h17, "-mode", "decls", "-dir", os.path.join(root, p)], cwd=vf.GO, env=vf.go_env(), timeout=300)
         if rc != 0:
@@ -409,9 +455,64 @@ def run(ctx):
                                              dict(sel), order, m.group(1) if m else out, m.group(2) if m else out, lines[regen_cases - 1])})
                 break
 
+    # ------------------------------------------------------------ what the second run sees of the first run's output (model over the regenerated
+    # order of api.Generate's steps) vs the types the real models file declares after the first / the second generation
+    regen_cmp = 0
+    roots_ = {"Query", "Mutation", "Subscription"}
+    for p in projects:
+        m = meta.get(p, {}).get("regen")
+        if results[p][0] is None or not have_model or not m:
+            continue
+        line = "gen2 %s %s %d" % (",".join(m["types"]), ",".join(m["hand"]) or "-", 1 if m["autobind"] else 0)
+        out = ctx.driver("c18", [line])[0]
+        mm = re.match(r"first=(\w+) models=(\S+) exec=(\d) second=(\w+) models=(\S+) exec=(\d)$", out)
+        regen_cmp += 1
+        if not mm:
+            ctx.violation({"kind": "model", "what": "driver_c18 gen2 answered " + out, "project": p}, no_failing_input=True)
+            continue
+        pred = {True: (mm.group(1), mm.group(2)), False: (mm.group(4), mm.group(5))}
+        inp = {f: open(os.path.join(root, p, f)).read() for f in ("schema.graphql", "gqlgen.yml")}
+        if mm.group(1, 2, 3) != mm.group(4, 5, 6):
+            # the Spec (running again on the generated tree changes nothing) evaluated on the model with the regenerated step order
+            ctx.violation({"kind": "regeneration-model", "project": p, "model_input": m, "first_run": mm.group(1, 2, 3), "second_run": mm.group(4, 5, 6),
+                           "input": inp, "shape": {"kind": "idempotence", "model": "Regenerate"},
+                           "replay": "project %s (directory go/genout/c18/%s): with api.Generate's steps in the order regenerated from api/generate.go "
+                                     "(Gen/GenerateSteps.lean) the tree model gives first run = %s, models file declares %s; second run on that tree = %s, models file %s "
+                                     "(driver_c18 `%s`)" % (p, p, mm.group(1), mm.group(2), mm.group(4), mm.group(5), line)})
+        mf = re.search(r"^model:\n  filename: (\S+)", inp["gqlgen.yml"], re.M).group(1)
+        for r in results[p][0]:
+            text = r.get("_text", {}).get(mf)
+            if r.get("failed") or (text is None and mf in r["files"]):
+                continue
+            want_ok, want = pred[r["clean_tree"]]
+            got = sorted(set(re.findall(r"^type (\w+) ", text or "", re.M)) - roots_)
+            exp = sorted(set(want.split(",")) - {"-"}) if want_ok == "ok" else None
+            if got != exp:
+                ctx.violation({"kind": "correspondence", "project": p, "what": "types declared by the generated models file vs the tree model of api.Generate",
+                               "run": {k: v for k, v in r.items() if k in ("GOMAXPROCS", "start", "clean_tree")}, "models_file_declares": got,
+                               "model": exp if exp is not None else "generation fails", "input": inp,
+                               "replay": "project %s: %s declares %s; Model/Regenerate.lean over Gen/GenerateSteps.lean (driver_c18 `%s`) predicts %s" % (
+                                   p, mf, got, line, exp if exp is not None else "a failing run")}, no_failing_input=True)
+                break
+
     # ------------------------------------------------------------ broken proof
     if ok_extract and not proved:
         found = any(not nf for _, nf in ctx.violations)
+        if not found and have_model:
+            # search the tree model (regenerated step order) for a project whose second run differs from its first
+            grid = [("Todo,User,NewTodo", "Todo", 1), ("Todo,User", "Todo,User", 1), ("Todo,User,NewTodo", "Todo", 0), ("A,B,C,D", "-", 1),
+                    ("A,B,C,D", "-", 0), ("A", "A", 1), ("A,B", "B", 1), ("A,B,C", "A,C", 1)]
+            for (ts, hand, ab), out in zip(grid, ctx.driver("c18", ["gen2 %s %s %d" % g for g in grid])):
+                a, _, b = out.partition(" second=")
+                if a != "first=" + b:
+                    found = True
+                    ctx.violation({"kind": "regeneration-model", "schema_types": ts.split(","), "hand_written_types_in_model_package": [x for x in hand.split(",") if x != "-"],
+                                   "model_package_autobound": bool(ab), "runs": out, "failing": ctx.proof_failure,
+                                   "shape": {"kind": "idempotence", "model": "Regenerate"},
+                                   "replay": "tree model of api.Generate with the steps in the order regenerated from api/generate.go (Gen/GenerateSteps.lean): schema types %s, "
+                                             "hand-written %s in the model package, autobind=%d: %s (driver_c18 `gen2 %s %s %d`); real project with this shape: corpus/C18/autobind_model_package" % (
+                                                 ts, hand, ab, out, ts, hand, ab)})
+                    break
         if found:
             pass        # the concrete failing inputs above are the report
         elif sensitive:
@@ -426,7 +527,8 @@ def run(ctx):
 
     cls = Counter(s["class"] for s in sites)
     ctx.cov.update({
-        "evaluations": total_runs + order_cmp + ptr_cmp + regen_cases,
+        "evaluations": total_runs + order_cmp + ptr_cmp + regen_cases + regen_cmp,
+        "regeneration_model_comparisons": regen_cmp,
         "pointer_decision_comparisons": {"projects": ptr_cmp, "struct_fields": ptr_fields},
         "import_alias_regeneration_cases": regen_cases,
         "project_dimensions": dict(Counter(meta[p]["dimension"] for p in projects if p in meta)),
